@@ -240,7 +240,12 @@ def make_constraint(real, c, kw):
     if k == "indicatorTarget":
         return ps.IndicatorTarget(indicator=real.indicators[c[1]], value=c[2], **kw)
     if k == "indicatorBounds":
-        return ps.IndicatorBounds(indicator=real.indicators[c[1]], lower_bound=c[2], upper_bound=c[3], **kw)
+        extra = {}
+        if c[2] is not None:
+            extra["lower_bound"] = c[2]
+        if c[3] is not None:
+            extra["upper_bound"] = c[3]
+        return ps.IndicatorBounds(indicator=real.indicators[c[1]], **extra, **kw)
     raise ValueError(k)
 
 
